@@ -162,6 +162,20 @@ CHECKS = {
             {"name": "c11-lib", "bin": "server", "build": "inpkg:pkg/server", "run": "^TestC11Lib$", "quick": 20000, "thorough": 1000000},
         ],
     },
+    "C12": {
+        "level": "exploration",
+        "manifest": {
+            "technique": "reflection-driven enumeration of every exported method of every provider object x spellings x call forms, plus property-based generation of argument vectors (rapid), with invocation counters on a probe provider and state snapshots on the real mock providers",
+            "level_text": "The method universe is read by reflection at run time from a probe provider (15 allow-listed names with assorted signatures, 11 unlisted ones such as Secret/Exec/Close/DropAll/Query/GetSecret/Gets) and from the objects the CLI injects (mock database + table handler, Redis mock, MongoDB mock + collection handler, HTTP client). Every method is called from GlyphLang source under 5-6 spellings (exact, lower, UPPER, lowerCamel, Title, random case flips) and 6 call forms (p.m(a), m(p, a), p.t.m(a), bare field p.m, through an object field, through a variable holding the sub-object) with argument vectors of arity 0-4 over null, bool, ints, float, strings, arrays, objects and nested values. A method whose name is not on the allow-list is never invoked (probe counters stay 0, no probe-only data in the response; real providers return an error and their observable state is unchanged); no call of any shape panics or hangs.",
+            "level_note": "The allow-list is read from pkg/interpreter/database.go in the working tree (CallMethod enforces the global list; the per-provider lists in providerMethods are never consulted - reported as an observation, not a violation). The LLM handler is not exercised (it needs a reachable endpoint). database.Handler over SQLite is covered under C13.",
+        },
+        "rule": ("enumerated matrix (every method x 5 spellings x 6 forms x 9 argument vectors) plus rapid-generated (provider, method, spelling, form, 0-4 arguments); non-trivial = the method is unlisted, or the call carries arguments (arity / kind mismatches); distinct = hash of the case"),
+        "assumptions": ["invocation of a probe method is observed through a counter inside the method"],
+        "units": [
+            {"name": "c12-calls", "bin": "c12", "build": "harness:c12", "run": "^TestC12Probe$", "quick": 40000, "thorough": 2000000},
+            {"name": "c12-matrix", "bin": "c12", "build": "harness:c12", "run": "^TestC12Matrix$", "enumerate": True, "shards": 14},
+        ],
+    },
     "C18": {
         "level": "exploration",
         "manifest": {
